@@ -469,6 +469,15 @@ fn judge_step(w: &mut World, id: &str, k: usize, parts: &[V], reply: &V) -> (Vec
     macro_rules! zset_or_refused { () => { match zcur { Some(z) => z, None => { if !is_err { fail("wrong type not refused".into(), ""); } return (fails, fork) } } } }
     match &name[..] {
         b"SET" => { if !is_err { w.db.insert(key, RefVal::Other); } }
+        b"TYPE" | b"EXISTS" if parts.len() == 2 && !w.tainted.contains(&key) => {
+            // a sorted set exists exactly as long as it has a member
+            let exp = match (&name[..], &cur) {
+                (b"TYPE", Some(RefVal::Z(_))) => V::Simple(b"zset".to_vec()), (b"TYPE", None) => V::Simple(b"none".to_vec()),
+                (b"EXISTS", Some(_)) => V::Int(1), (b"EXISTS", None) => V::Int(0),
+                _ => reply.clone(),
+            };
+            if !same_reply(reply, &exp) { fail(format!("answered {:?}, expected {:?}", reply, exp), ""); }
+        }
         b"DEL" => { w.db.remove(&key); }
         b"RENAME" => { if !is_err { if let (Some(v), Some(V::Bulk(dst))) = (w.db.remove(&key), parts.get(2)) { if w.tainted.remove(&key) { w.tainted.insert(dst.clone()); } w.db.insert(dst.clone(), v); } } }
         b"ZADD" => {
